@@ -360,6 +360,8 @@ struct FileCfg {
     optorder: u8,
     /// 0: streams keyed MCP/LF0/LPF as in the bundled voice, 1: MGC/F0/BAP (the keys are free-form)
     names: u8,
+    /// arrangement of the container (gen::voice::write_layout): header keys reversed, data blocks reversed, filler
+    container: u8,
 }
 
 fn build_file(fc: &FileCfg, pool: &[(String, Vec<String>)], all_shapes: &[TreeSpec]) -> VoiceSpec {
@@ -524,7 +526,7 @@ fn construct_label(path: &[(String, bool)], questions: &HashMap<String, Vec<Stri
 
 pub fn run(tier: Tier) -> i32 {
     let rep = Report::new("C04", tier, "model_checking");
-    rep.set_rule("SCOPE: (a) bundled voice: every model (duration, 3 streams x 5 states, 2 GV) x every label of the label space (corpus + one-group recombinations of the cover set + every distinct corpus value of every field group in 2-4 base labels + typed sweeps of every numeric field over 0..N + phoneme symbols from the voice's own patterns) vs an independent reader of the file + HTS wildcard matcher, bit-exact on means/variances/voicing weight and equal on tree/PDF index; (b) every distinct question of the bundled voice x the label space: crate matcher vs wildcard oracle; (c) generated files: all binary tree shapes with <= 3 internal nodes x 4 leaf numberings (in order, reversed, permuted, tied: one PDF reached by several branches) x quoted/unquoted x question triples from a pool of real questions (incl. the regex-fallback ones) x layout deviations (states, streams, vector length, window set, order in which the state trees are listed, numbering and listing order of the internal nodes: sequential, non-contiguous ids, ids counted backwards, yes-subtree rows first; the six orders of the spectrum options; stream keys MGC/F0/BAP instead of MCP/LF0/LPF), checked against both the independent reader and the generator's spec (sentinel floats); (d) metadata, options, windows, engine defaults vs the header; distinct = (file, model, state, label); non-trivial = lookups through a tree with more than one leaf");
+    rep.set_rule("SCOPE: (a) bundled voice: every model (duration, 3 streams x 5 states, 2 GV) x every label of the label space (corpus + one-group recombinations of the cover set + every distinct corpus value of every field group in 2-4 base labels + typed sweeps of every numeric field over 0..N + phoneme symbols from the voice's own patterns) vs an independent reader of the file + HTS wildcard matcher, bit-exact on means/variances/voicing weight and equal on tree/PDF index; (b) every distinct question of the bundled voice x the label space: crate matcher vs wildcard oracle; (c) generated files: all binary tree shapes with <= 3 internal nodes x 4 leaf numberings (in order, reversed, permuted, tied: one PDF reached by several branches) x quoted/unquoted x question triples from a pool of real questions (incl. the regex-fallback ones) x layout deviations (states, streams, vector length, window set, order in which the state trees are listed, numbering and listing order of the internal nodes: sequential, non-contiguous ids, ids counted backwards, yes-subtree rows first; the six orders of the spectrum options; stream keys MGC/F0/BAP instead of MCP/LF0/LPF; header keys in reverse order, data blocks in reverse order and/or separated by filler bytes), checked against both the independent reader and the generator's spec (sentinel floats); (d) metadata, options, windows, engine defaults vs the header; distinct = (file, model, state, label); non-trivial = lookups through a tree with more than one leaf");
     rep.assume("labels limited to the stated label space; generated trees have at most 3 internal nodes; the label text matched by the oracle is the label's own serialisation");
     // ---------- question pool from the bundled voice ----------
     let v0b = v0_bytes();
@@ -690,7 +692,7 @@ pub fn run(tier: Tier) -> i32 {
         .collect();
     let all_shapes: Vec<TreeSpec> = (0..=3).flat_map(shapes).collect();
     let mut files: Vec<FileCfg> = Vec::new();
-    let default = FileCfg { shape: 0, assign: 0, quoted: true, qtriple: [0, 1, 2], nstate: 2, ns: 3, vlen: 2, wset: 2, order: 0, numbering: 0, optorder: 0, names: 0 };
+    let default = FileCfg { shape: 0, assign: 0, quoted: true, qtriple: [0, 1, 2], nstate: 2, ns: 3, vlen: 2, wset: 2, order: 0, numbering: 0, optorder: 0, names: 0, container: 0 };
     let mut triples: Vec<[usize; 3]> = Vec::new();
     for a in 0..pool.len() {
         for b in 0..pool.len() {
@@ -745,6 +747,12 @@ pub fn run(tier: Tier) -> i32 {
                                 files.push(FileCfg { shape, assign, quoted, qtriple: *t, nstate: l.0, ns: l.1, vlen: l.2, wset: l.3, optorder, names: optorder % 2, ..default.clone() });
                             }
                         }
+                        // the same file in the seven other arrangements of the container
+                        if ti == 0 && li == 0 && assign <= 1 {
+                            for container in 1..8u8 {
+                                files.push(FileCfg { shape, assign, quoted, qtriple: *t, nstate: l.0, ns: l.1, vlen: l.2, wset: l.3, container, ..default.clone() });
+                            }
+                        }
                         // the same file with its internal nodes numbered / listed in the other legal ways
                         if ti == 0 || li == 0 {
                             for numbering in 1..=3u8 {
@@ -754,7 +762,7 @@ pub fn run(tier: Tier) -> i32 {
                         // the same file with its state trees listed in descending / rotated order (states >= 2 only)
                         if l.0 >= 2 && (ti == 0 || li == 0) && (shape + assign) % 2 == 0 {
                             for order in [1usize, 2] {
-                                files.push(FileCfg { shape, assign, quoted, qtriple: *t, nstate: if order == 2 { 5 } else { l.0 }, ns: l.1, vlen: l.2, wset: l.3, order, numbering: 0, optorder: 0, names: 0 });
+                                files.push(FileCfg { shape, assign, quoted, qtriple: *t, nstate: if order == 2 { 5 } else { l.0 }, ns: l.1, vlen: l.2, wset: l.3, order, numbering: 0, optorder: 0, names: 0, container: 0 });
                             }
                         }
                     }
@@ -794,7 +802,7 @@ pub fn run(tier: Tier) -> i32 {
     rep.par_for(files.len(), 4, "C04 part 4", |fi| {
         let fc = &files[fi];
         let spec = build_file(fc, &pool, &all_shapes);
-        let bytes = write(&spec);
+        let bytes = crate::gen::voice::write_layout(&spec, fc.container);
         rep.eval(1);
         let name = format!("{:?}", fc);
         let v = match catch(|| load_voice_bytes(&bytes)) {
